@@ -300,6 +300,9 @@ def parts(tier):
         for n in range(0, 5):
             for seq in itertools.product((0, 0.0, 0.5, 100, 120.5, -3), repeat=n):
                 yield seq
+        # series of mixed sign whose SUM is exactly 0 although no element is (a de-meaned or delta track): an aggregate says nothing about emptiness
+        for seq in ((-2.0, 0.5, 1.5), (-3, 1, 2), (-0.25, 0.25), (3, -3), (-3, 3, 0), (0, -1.5, 1.5, 0), (100, -100, 5, -5), (-3, 3, -3, 3)):
+            yield seq
         for n in LONG_N:  # the size axis: long tracks with unvoiced stretches
             yield tuple((0, 100, 120.5, 0.5, 0, 0, 98.25)[(i * 5) % 7] for i in range(n))
         # constant runs and near-constant runs of non-dyadic floats (where a one-pass variance cancels catastrophically)
